@@ -1,3 +1,3 @@
 #!/bin/sh
 # replays this counterexample against the real build
-cd /tmp/dbg_C02b && VERIF_SCRIPT=/verif/replays/C02/VHarnessMeltQuoteC02_b2b6399a_0/script.json VERIF_RAW_SALT=0 GOFLAGS=-mod=mod GOPROXY=off go test -vet=off -count=1 -overlay /verif/replays/C02/VHarnessMeltQuoteC02_b2b6399a_0/overlay.json -run ^TestVerifReplay_VHarnessMeltQuoteC02$ -v ./mint
+cd /tmp/seedrepo_C02b && VERIF_SCRIPT=/verif/replays/C02/VHarnessMeltQuoteC02_b2b6399a_0/script.json VERIF_RAW_SALT=0 GOFLAGS=-mod=mod GOPROXY=off go test -vet=off -count=1 -overlay /verif/replays/C02/VHarnessMeltQuoteC02_b2b6399a_0/overlay.json -run ^TestVerifReplay_VHarnessMeltQuoteC02$ -v ./mint
